@@ -694,19 +694,39 @@ pub fn main_many(args: &[String]) {
                     w3.add_file("small", 100, &big1[..100]).map_err(refused)?;
                     w3.add_file("big-append", big2.len() as u64, &big2[..]).map_err(refused)?;
                     w3.add_file("last", 3, &big2[..3]).map_err(refused)?;
+                    // one call of 41 MiB + 3 (what `add_file` / `mlar create` do with a 41 MiB file: ONE content block)
+                    let big3 = archive::file_bytes(&par, 7, 0, (41 << 20) + 3);
+                    w3.add_file("big-41", big3.len() as u64, &big3[..]).map_err(refused)?;
+                    // SOURCES that hold more than announced, at production sizes: one stream feeds successive appends of
+                    // 300 001 and 200 000 bytes (the second must get the bytes that FOLLOW the first), and `add_file` is
+                    // given a source longer than the size (a file that grew since its size was taken)
+                    let shared = archive::file_bytes(&par, 8, 0, 700_000);
+                    let mut cur = Cursor::new(&shared[..]);
+                    let ids = w3.start_file("shared-source").map_err(refused)?;
+                    w3.append_file_content(ids, 300_001, &mut cur).map_err(refused)?;
+                    w3.append_file_content(ids, 200_000, &mut cur).map_err(refused)?;
+                    w3.end_file(ids).map_err(refused)?;
+                    w3.add_file("grown", 400_003, &shared[..]).map_err(refused)?;
                     w3.finalize().map_err(refused)?;
                     let mut rd3 = ArchiveReader::from_config(Cursor::new(w3.into_raw()), archive::reader_config(&par)).map_err(|e| ("open-error".to_string(), format!("big: {e:?}")))?;
-                    let wants: Vec<(String, &[u8])> = vec![("big-stream".into(), &big1[..]), ("small".into(), &big1[..100]), ("big-append".into(), &big2[..]), ("last".into(), &big2[..3])];
+                    let wants: Vec<(String, &[u8])> = vec![("big-stream".into(), &big1[..]), ("small".into(), &big1[..100]), ("big-append".into(), &big2[..]), ("last".into(), &big2[..3]),
+                                                               ("big-41".into(), &big3[..]), ("shared-source".into(), &shared[..500_001]), ("grown".into(), &shared[..400_003])];
                     for (name, want) in &wants {
                         let mut got = vec![];
                         let mut f = rd3.get_file(name.clone()).map_err(|e| ("read-error".to_string(), format!("{name}: {e:?}")))?.ok_or(("list-mismatch".to_string(), name.clone()))?;
                         let size = f.size;
                         f.data.read_to_end(&mut got).map_err(|e| ("read-error".to_string(), format!("{name}: {e:?}")))?;
                         if &got[..] != *want || size != want.len() as u64 {
-                            return Err(("content-mismatch".into(), format!("{name}: {} bytes read (size {size}), {} written in one call", got.len(), want.len())));
+                            return Err(("content-mismatch".into(), format!("{name}: {} bytes read (size {size}), {} written, common prefix {}", got.len(), want.len(),
+                                                                           crate::cells::common_prefix(&got, want))));
+                        }
+                        use sha2::Digest;
+                        let h: [u8; 32] = sha2::Sha256::digest(want).into();
+                        if rd3.get_hash(name).map_err(|e| ("hash-error".to_string(), format!("{name}: {e:?}")))? != Some(h) {
+                            return Err(("hash-mismatch".into(), format!("{name}: the stored hash is not the SHA-256 of the {} bytes stored", want.len())));
                         }
                     }
-                    for subset in [vec!["small", "last"], vec!["big-stream"], vec!["big-append", "small"], vec!["big-stream", "small", "big-append", "last"]] {
+                    for subset in [vec!["small", "last"], vec!["big-stream"], vec!["big-append", "small"], vec!["big-stream", "small", "big-append", "last"], vec!["last", "grown"], vec!["big-41", "shared-source"]] {
                         let chosen: Vec<String> = subset.iter().map(|x| (*x).to_string()).collect();
                         let mut export: HashMap<&String, Vec<u8>> = chosen.iter().map(|nm| (nm, Vec::new())).collect();
                         mla::helpers::linear_extract(&mut rd3, &mut export).map_err(|e| ("linear-error".to_string(), format!("subset {subset:?}: {e:?}")))?;
@@ -731,6 +751,34 @@ pub fn main_many(args: &[String]) {
                     }
                 }
                 return Ok(());
+            }
+            // SIZES of single blocks under repair: 41 MiB + 3 in one content block, between two small files, intact archive
+            if st != "enc" {
+                let mut wb = ArchiveWriter::from_config(Vec::new(), archive::writer_config(&par)).map_err(|e| ("create-error".to_string(), format!("{e:?}")))?;
+                let big = archive::file_bytes(&par, 7, 0, (41 << 20) + 3);
+                wb.add_file("before", 5, &big[..5]).map_err(|e| ("valid-call-refused".to_string(), format!("{e:?}")))?;
+                wb.add_file("big-41", big.len() as u64, &big[..]).map_err(|e| ("valid-call-refused".to_string(), format!("{e:?}")))?;
+                wb.add_file("after", 7, &big[..7]).map_err(|e| ("valid-call-refused".to_string(), format!("{e:?}")))?;
+                wb.finalize().map_err(|e| ("valid-call-refused".to_string(), format!("{e:?}")))?;
+                let bb = wb.into_raw();
+                let mut fs = ArchiveFailSafeReader::from_config(&bb[..], archive::reader_config(&par)).map_err(|e| ("repair-open".to_string(), format!("{e:?}")))?;
+                let mut wcfg = ArchiveWriterConfig::new();
+                wcfg.set_layers(Layers::EMPTY);
+                let mut out = ArchiveWriter::from_config(Vec::new(), wcfg).map_err(|e| ("create-error".to_string(), format!("{e:?}")))?;
+                let status = fs.convert_to_archive(&mut out).map_err(|e| ("repair-fatal".to_string(), format!("big block: {e:?}")))?;
+                let mut rd = ArchiveReader::new(Cursor::new(out.into_raw())).map_err(|e| ("repaired-does-not-open".to_string(), format!("big block: {e:?}")))?;
+                for (name, want) in [("before", &big[..5]), ("big-41", &big[..]), ("after", &big[..7])] {
+                    let mut got = vec![];
+                    if let Some(mut f) = rd.get_file(name.to_string()).map_err(|e| ("read-error".to_string(), format!("{name}: {e:?}")))? {
+                        f.data.read_to_end(&mut got).map_err(|e| ("read-error".to_string(), format!("{name}: {e:?}")))?;
+                    }
+                    if got.len() > want.len() || want[..got.len()] != got[..] {
+                        return Err(("Prefix".into(), format!("big block: {name}")));
+                    }
+                    if got != want || status_name(&status) != "End" {
+                        return Err(("CompleteOnIntact".into(), format!("intact archive with a 41 MiB block: status {}, {name}: {} of {} bytes", status_name(&status), got.len(), want.len())));
+                    }
+                }
             }
             for (cut, label) in [(bytes.len(), "intact"), (bytes.len() / 3, "cut")] {
                 let mut cfg = archive::reader_config(&par);
